@@ -87,7 +87,7 @@ CHECKS = {
             "two filters) and both request parities under every pick order (every completion order): reply vector equals "
             "the expected one in connection order and is returned only after all repliers processed the request; port "
             "clones share connections added through either clone.", S_NOTE, "5/C14"),
-    "C15": ("loomx", "exploration", "loom DPOR (interleavings and C11 memory-model outcomes) on the real seqlock cell and time adapter",
+    "C15": ("loomx+shutx", "exploration", "loom DPOR (interleavings and C11 memory-model outcomes) on the real seqlock cell and time adapter",
             "Real SyncCell<TearableAtomicTime> (atomics of monotonic_time.rs redirected to loom): one writer performing 1-3 successive "
             "writes of times whose seconds and nanoseconds are pairwise distinct, 1-2 readers doing 1-3 reads through try_read and "
             "through the spinning read (spin loop made visible to loom by the verif-hooks spin hint), plus a release/acquire "
@@ -99,7 +99,7 @@ CHECKS = {
             "mailboxes, under every pick order: one init per model, inside SimInit::init, before its first handler; early "
             "messages processed exactly once; names parent.child in contexts and in Panic/NoRecipient/Deadlock reports.",
             S_NOTE, "5/C16"),
-    "C17": ("seqx+simx", "model_checking", "bounded-exhaustive write/read/open/close sequences on the real sinks vs VecDeque/Option reference, plus stateless DFS over pick orders for model-to-sink order",
+    "C17": ("seqx+simx+shutx", "model_checking", "bounded-exhaustive write/read/open/close sequences on the real sinks vs VecDeque/Option reference, plus stateless DFS over pick orders for model-to-sink order",
             "EventBuffer (capacities 1-3, initially open or closed, two writer handles) and EventSlot: every sequence to "
             "depth 7/8 (thorough 9/10) of write/next/drain/open/close against VecDeque-with-eviction / Option. Plus: a model "
             "emitting 1..5 events through one output to two buffers, a slot and a second model, under every pick order: "
@@ -110,7 +110,7 @@ CHECKS = {
             "included)/extract(key forged from the slot of one issued key and the epoch of another)/extract(never-issued "
             "key); slot recycling is forced by the small alphabet; return values and len() compared after every step.",
             "grpc/key_registry.rs is a thin wrapper (feature grpc, not built by default) and is covered through the queue it wraps.", "5/C20"),
-    "C18": ("simx", "exploration", S_TECH,
+    "C18": ("simx+shutx", "exploration", S_TECH,
             "All driver sequences (depth 4/5) of scheduling and stepping commands under 17 scripted clocks (lag above / "
             "equal / below tolerance, no tolerance, at the first four synchronisations): one synchronize per new time, "
             "after all earlier computations, arguments never decrease, OutOfSync before any model code of that time.",
@@ -160,7 +160,7 @@ def main():
             "add_only": True,
         },
         "engines": [
-            {"name": "shutx", "path": "engines/shutx", "serves_properties": ["C01", "C02", "C03", "C04", "C05", "C06", "C07", "C08", "C12", "C14", "C19"],
+            {"name": "shutx", "path": "engines/shutx", "serves_properties": ["C01", "C02", "C03", "C04", "C05", "C06", "C07", "C08", "C12", "C14", "C15", "C17", "C18", "C19"],
              "kind_free_text": "mirror of /repo/nexosim/src compiled against shuttle 0.9.3 (engines/mirror/mirror.py rewrites import lines only); own preemption-bounded DFS scheduler; real MT executor, channel, Simulation"},
             {"name": "loomx", "path": "engines/loomx", "serves_properties": ["C04", "C05", "C12", "C13", "C14", "C15"],
              "kind_free_text": "mirror of /repo/nexosim/src compiled against loom 0.7.2; loom DPOR with preemption bounds on the real queue, task, seqlock cell, cached lock"},
